@@ -515,6 +515,8 @@ fn from_wire(c: &mut Ctx) {
             let r = RelativeName::from_octets(w.clone()).ok().map(|n| n.as_slice().to_vec());
             let r2 = RelativeName::from_slice(&w).ok().map(|n| n.as_slice().to_vec());
             let u = UncertainName::from_octets(w.clone()).ok().map(|u| (u.is_absolute(), u.as_slice().to_vec()));
+            // an uncertain name keeps its kind in its text (trailing dot or none): text and back
+            let utext = UncertainName::from_octets(w.clone()).ok().filter(|u| !u.as_slice().is_empty()).map(|u| { let t = format!("{}", u); let back = UncertainName::<Vec<u8>>::from_str(&t).ok().map(|b| (b.is_absolute(), b.as_slice().to_vec())); (t, back) });
             // Parser-based: the name at the start of a buffer with trailing octets
             let mut buf = w.clone();
             buf.extend_from_slice(&[0xAA, 0xBB]);
@@ -522,9 +524,17 @@ fn from_wire(c: &mut Ctx) {
             let pn = Name::parse(&mut p).ok().map(|n: Name<&[u8]>| (n.as_slice().to_vec(), p.pos()));
             let mut p2 = Parser::from_ref(&buf[..]);
             let pp = ParsedName::parse(&mut p2).ok().map(|n| (n.to_vec().as_slice().to_vec(), p2.pos()));
-            (a, a2, a3, r, r2, u, pn, pp)
+            (a, a2, a3, r, r2, u, pn, pp, utext)
         });
-        let Some((a, a2, a3, r, r2, u, pn, pp)) = r else { continue };
+        let Some((a, a2, a3, r, r2, u, pn, pp, utext)) = r else { continue };
+        if let (Some((t, back)), Some(orig)) = (&utext, &u) {
+            if back.as_ref() != Some(orig) {
+                let shape = if orig.1 == [0u8] { "root" } else if orig.0 { "absolute" } else { "relative" };
+                let rp = c.replay_of(fam, idx, json!({"input": hex(&w), "text": t}));
+                c.violation(&format!("text-roundtrip:UncertainName:{}", shape), &format!("the {} uncertain name {} is written as {:?}, which reads back as {:?}", shape, hex(&w), t, back.as_ref().map(|b| (b.0, hex(&b.1)))), rp);
+            }
+            c.count("uncertain_text_roundtrips", 1);
+        }
         for (api, v) in [("Name::from_octets", &a), ("Name::from_slice", &a2), ("Name::from_octets<Bytes>", &a3)] {
             if let Some(o) = v {
                 chk_abs(c, fam, idx, api, o, &ex);
@@ -1531,6 +1541,7 @@ pub fn run(c: &mut Ctx) {
     c.floor("scan_invalid_refused", 100);
     c.floor("chains", 10);
     c.floor("serde_names", 1000);
+    c.floor("uncertain_text_roundtrips", 1000);
     c.floor("serde_roundtrips", 1000);
     c.floor("serde_labels", 100);
     c.floor("slices", 100);
